@@ -34,7 +34,8 @@ Record cfg := {
   c_report_first : bool;(* failure counters are reported right before an exited thread's context is removed (F9) *)
   c_bt : bt_cfg;        (* BacktraceStorage facts (index reset, capacity-0 guard) *)
   c_bt_catch : bool;    (* a throwing sink during a backtrace replay is contained per event (F6) *)
-  c_flush_iv : N        (* BackendOptions::sink_min_flush_interval in clock ticks (0 = flush in every idle stage) *)
+  c_flush_iv : N;       (* BackendOptions::sink_min_flush_interval in clock ticks (0 = flush in every idle stage) *)
+  c_follow : bool       (* _read_unbounded_frontend_queue keeps following the node chain while the node it switched to is empty (F11) *)
 }.
 
 (* ------------------------------------------------------------------ state *)
@@ -176,7 +177,15 @@ Definition UMAX : N := 2 ^ 31.
 Definition u_write (n : N) (u : uq) : uq :=
   let (u1, r) := uq_prepare_write UMAX u n in
   match r with WSome _ => uq_commit_write (uq_finish_write u1 n) | _ => u1 end.
-Definition u_prepare_read (u : uq) : uq := fst (uq_prepare_read 5 (c_pub K) true true u).
+(* one prepare_read() of the unbounded queue follows at most one `next` link; the backend's
+   _read_unbounded_frontend_queue calls it again while the call switched nodes and still returned nothing *)
+Fixpoint u_read_chain (fuel : nat) (u : uq) : uq * rres :=
+  let (u1, r) := uq_prepare_read 5 (c_pub K) true true u in
+  match fuel with
+  | O => (u1, r)
+  | S f => if c_follow K && rr_alloc r && (match rr_off r with None => true | Some _ => false end) then u_read_chain f u1 else (u1, r)
+  end.
+Definition u_prepare_read (u : uq) : uq := fst (u_read_chain (length (nodes u)) u).
 Definition u_finish_read (n : N) (u : uq) : uq := uq_finish_read u n.
 Definition u_commit_read (u : uq) : uq := uq_commit_read 5 (c_pub K) u.
 Definition u_empty (u : uq) : uq := fst (uq_empty u).
@@ -184,6 +193,14 @@ Definition sh (f : uq -> uq) (x : thr) : thr := set_thr_uqs x (option_map f (uqs
 (* _read_and_decode_frontend_queue reads at most frontend_queue.capacity() bytes per call: the capacity of the
    bounded queue, or of the node the consumer is on *)
 Definition read_limit (x : thr) : N := match uqs x with Some u => capacity u | None => c_cap K end.
+(* the read of an unbounded queue returns nothing although a later node holds records: without chain following
+   (c_follow = false) when the consumer's node is drained and the node behind it is empty too (a node published by
+   shrink() that the next record did not fit into) *)
+Definition u_blocked (x : thr) : bool :=
+  match uqs x with
+  | Some u => match rr_off (snd (u_read_chain (length (nodes u)) u)) with None => true | Some _ => false end
+  | None => false
+  end.
 
 Definition memb (t : nat) (l : list nat) : bool := existsb (Nat.eqb t) l.
 
@@ -199,7 +216,8 @@ Inductive fop :=
 | FSetLevel (l : nat) (v : N)  (* logger->set_log_level *)
 | FSetSinkLevel (k : nat) (v : N)
 | FAddFilter (k : nat) (m : N)
-| FTick (d : N).
+| FTick (d : N)
+| FShrink (t : nat) (c : N).   (* Frontend::shrink_thread_local_queue(c): the producer publishes a smaller node (unbounded queues only) *)
 
 (* would the macro enqueue at all? (level >= logger level; control events always) *)
 Definition passes_logger (s : st) (e : ev) : bool :=
@@ -217,6 +235,7 @@ Definition retime (s : st) (e0 : ev) : ev :=
 
 Definition fstep (s : st) (o : fop) : st :=
   match o with
+  | FShrink t c => set_th s (upd (th s) t (sh (fun u => uq_shrink u c) (th s t)))
   | FTick d => {| clock := clock s + d; th := th s; registered := registered s; newflag := newflag s;
       invalid_cnt := invalid_cnt s; cache := cache s; pc := pc s; tsnow := tsnow s; lg := lg s; sk := sk s;
       nsinks := nsinks s; nloggers := nloggers s; lastfl := lastfl s; flags := flags s; obs := obs s;
@@ -329,7 +348,8 @@ Fixpoint read_loop (fuel : nat) (lim : N) (tn : N) (x : thr) (total : N) (notes 
   match fuel with
   | O => (x, total, notes, false)
   | S f =>
-    let (q1, r) := prepare_read ideal (c_cap K) (q x) in
+    let (q1, r0) := prepare_read ideal (c_cap K) (q x) in
+    let r := if u_blocked x then None else r0 in
     match r, qev x with
     | Some _, e :: rest =>
         (* back(): the buffer expands when full, before anything else *)
